@@ -207,7 +207,7 @@ std::string run(const QJsonObject &c)
     case refpattern::Bounded:
         ok = false;
         for (auto &f : r.full)
-            if (refpattern::boundedMatch(out, f, r.budget, r.keepPrefix, r.keepSuffixFrom)) ok = true;
+            if (refpattern::boundedMatchMasked(out, f, r.fullMask, r.budget, r.keepPrefix, r.keepSuffixFrom)) ok = true;
         if (!ok) why = "output " + show(out).toStdString() + " is not " + show(r.full.value(0)).toStdString() + " minus at most " + std::to_string(r.budget)
                     + " units around the missing optional attributes (" + r.note.toStdString() + ")";
         break;
